@@ -172,6 +172,12 @@ impl MemTable {
 		self.skiplist.size() as usize
 	}
 
+	/// True when arena space has been consumed although no entry is stored
+	/// (allocations of a batch that then failed with ArenaFull).
+	pub(crate) fn has_wasted_arena(&self) -> bool {
+		self.is_empty() && self.skiplist.size() as u64 > self.empty_size
+	}
+
 	/// Adds a batch of operations to the memtable.
 	/// This includes appending the batch to the Write-Ahead Log (WAL),
 	/// applying the batch to the in-memory table, and updating the memtable
